@@ -60,6 +60,8 @@ type schedPlan struct {
 	// GoMaxProcs: the GOMAXPROCS the process starts with (0 = 4). The simulation itself does not depend on it;
 	// a tree that sizes something by runtime.GOMAXPROCS or NumCPU does.
 	GoMaxProcs int `json:"gomaxprocs,omitempty"`
+	// Env: additions to the process environment (a variable the tree is seen to read, set to a plausible value)
+	Env []string `json:"env,omitempty"`
 }
 
 type schedStats struct {
@@ -223,7 +225,7 @@ func (g *c12Engine) runPlan(sp *schedPlan, env ...string) (*schedOut, *schedVerd
 	if sp.GoMaxProcs > 0 {
 		gmp = sp.GoMaxProcs
 	}
-	env = append([]string{"GORACE=halt_on_error=1 exitcode=66 atexit_sleep_ms=0 log_path=" + racePath, "GOMAXPROCS=" + strconv.Itoa(gmp)}, env...)
+	env = append(append([]string{"GORACE=halt_on_error=1 exitcode=66 atexit_sleep_ms=0 log_path=" + racePath, "GOMAXPROCS=" + strconv.Itoa(gmp)}, sp.Env...), env...)
 	bin := g.bin
 	cold := sp.Preinit && g.binCold != "" && atomic.LoadInt32(&g.noCold) == 0
 	if cold {
@@ -949,6 +951,9 @@ func CheckC12(e *Env) (int, error) {
 	inconclusive := map[string]int{}
 	policies := map[string]int{}
 	warmRuns, warmCalls, idleRuns := 0, 0, 0
+	envNames, envOpaque := instr.EnvNames(e.RepoCopy())
+	envVals := append([]string{"1", "true", "0", "C", "ja_JP.UTF-8", "en_US.UTF-8"}, instr.EnvValueCandidates(e.RepoCopy())...)
+	envRuns := 0
 	probes := map[string]int{}
 	tolerated := 0
 	var samples []interface{}
@@ -976,6 +981,11 @@ func CheckC12(e *Env) (int, error) {
 			next++
 			mu.Unlock()
 			sp := genSchedPlan(plan.Derive(e.Seed, "C12/run", uint64(i)), pool, byLang, neutral, siteIDs)
+			if len(envNames) > 0 && i%8 == 3 { // the environment is no argument: one variable the tree is seen to read, set
+				k := i / 8
+				sp.Env = []string{envNames[k%len(envNames)] + "=" + envVals[(k/len(envNames))%len(envVals)]}
+				envRuns++
+			}
 			out, v, err := g.runPlan(sp)
 			// determinism audit on a sample: same plan under another GOMAXPROCS, and the
 			// recorded explicit schedule, must give the identical run digest
@@ -1144,6 +1154,9 @@ func CheckC12(e *Env) (int, error) {
 		"sim_steps_total":                        tot.Steps,
 		"sim_time_note":                          "the unchanged tree reads no clock, so simulated time is counted in scheduler steps (statement-level yields); a tree that imports \"time\" gets Now/Since/Until from the clock seam, which the simulator moves forward in jumps (an idle period between the sequential warm-up calls and the concurrent callers)",
 		"clock_seam_files":                       e.ClockFiles("irepo"),
+		"environment_variables_read_by_the_tree": envNames,
+		"environment_reads_with_opaque_names":    envOpaque,
+		"runs_with_environment_set":              envRuns,
 		"runs_with_sequential_warm_up":           warmRuns,
 		"warm_up_calls_total":                    warmCalls,
 		"runs_with_simulated_idle_time":          idleRuns,
